@@ -360,7 +360,7 @@ Definition sp_expired (p : N) : bool := N.leb p 1.
    its listener has a pending event} *)
 Definition dispatch_dl (gl : list (N * skind)) : list (N * kind) :=
   flat_map (fun g => match snd g with
-                     | STick p => if sp_expired p then [(fst g, KMissed)] else []
+                     | STick p => if sp_expired p then [(fst g, KEvent)] else []
                      | SDeadline _ p => if sp_expired p then [(fst g, KMissed)] else []
                      | SNotif _ => []
                      end) gl.
@@ -375,7 +375,7 @@ Definition dispatch_nt (gl : list (N * skind)) (pend : list N) : list (N * kind)
    first, epoll the duplicate) *)
 Definition sp_attach_errs (s : sp) (k : skind) : list aerr :=
   (if match sk_fd k with Some f => s_attached (s_gl s) f | None => false end then [EAlreadyAttached] else []) ++
-  (if N.leb (s_cap s) (lenN (s_gl s)) then [EAlreadyAttached] else []).
+  (if N.leb (s_cap s) (lenN (s_gl s)) then [EInsufficientCapacity] else []).
 
 Definition sp_attach (s : sp) (k : skind) : sp * obs :=
   match sp_attach_errs s k with
